@@ -133,6 +133,15 @@ def run(chk):
                                 f'turn after {b} by {a.name}',
                                 f'after a call by {a.name} the turn passes to {CLOCKWISE[a.name]}',
                                 f'after a call by {a.name} the turn passes to {ap}, clockwise is {CLOCKWISE[a.name]}')
+    # a refused call leaves no trace in either history and does not move the turn
+    for p in B.illegal:
+        ws = [e for e in p.writes() if (getattr(e, 'target', None) in (r.history, r.seat_history, r.active)) or
+              (e.kind == 'call' and (e.recv == r.history or e.recv.startswith(r.seat_history + '[') or e.recv.startswith(r.seat_history)))]
+        chk.require(not ws, 'C02.R1', B.repo.where(B.mod, ws[0].node) if ws else B.where, B.qual,
+                    (f'`{ast.unparse(ws[0].node)}` on a refused call' if ws else f'refused path {p.describe()[-50:]}'),
+                    'a refused (ILLEGAL) call is appended to no history and does not move the turn',
+                    f'`{ast.unparse(ws[0].node) if ws else ""}` is executed on a path that returns ILLEGAL: the refused call leaks into the auction record',
+                    path=p.describe())
     # dealer starts
     ip = B.init_paths[0]
     w_init, q_init = loc(chk.repo, 'BiddingPhase', '__init__', 'C02.R4')
